@@ -510,6 +510,60 @@ def lifecycle():
     bb = fn_body(pm, "process_inproc_binding_request_event")
     emit_nat("inprocRefusalKeepsBinder", 1 if re.search(
         r"validate_socket_compatibility\([^)]*\)\s*\{.{0,400}?reply_tx\.send\(Err\(e\)\);\s*return Ok\(\(\)\);", bb, re.S) else 0)
+    # close/term: accounting of actors, what a closed socket answers, who notices a shutdown they missed the event of
+    cx = strip_comments(src("core/src/context.rs"))
+    emit_nat("actorStartedAddsToWaitGroup", 1 if re.search(r"fn publish_actor_started.*?wg\.add\(1\);", cx, re.S) else 0)
+    bps = fn_body("core/src/context.rs", "publish_actor_stopping")
+    emit_nat("actorStoppingAlwaysDecrements", 1 if re.search(r"if wg\.get_count\(\) > 0 \{.*?wg\.done\(\);", bps, re.S) and "return" not in bps else 0)
+    dg = strip_comments(src("core/src/runtime/actor_drop_guard.rs"))
+    emit_nat("dropGuardPublishesOnEveryExit", 1 if re.search(r"impl Drop for ActorDropGuard \{\s*fn drop\(&mut self\) \{.*?self\.context\.publish_actor_stopping\(", dg, re.S)
+             and not re.search(r"fn drop\(&mut self\) \{[^}]*?return;", dg, re.S) else 0)
+    bw = fn_body("core/src/context.rs", "wait_for_termination")
+    mm = re.search(r"let wait_timeout = Duration::from_secs\((\d+)\);", bw)
+    emit_nat("termStragglerTimeoutSecs", int(mm.group(1)) if mm else 0)
+    wgb = fn_body("core/src/runtime/waitgroup.rs", "wait")
+    emit_nat("waitGroupRegistersBeforeCheck", 1 if re.search(r"notified\.as_mut\(\)\.enable\(\);.*?if self\.count\.load\(Ordering::Acquire\) == 0", wgb, re.S) else 0)
+    clx = strip_comments(src("core/src/socket/core/command_loop.rs"))
+    emit_nat("commandLoopAnswersQueuedCommands", 1 if re.search(r"while let Ok\(cmd\) = command_receiver\.try_recv\(\) \{.*?Command::UserClose \{ reply_tx \} => \{\s*let _ = reply_tx\.send\(Ok\(\(\)\)\);.*?\}\s*drop\(command_receiver\);", clx, re.S) else 0)
+    emit_nat("commandLoopUnregistersSocket", 1 if "context.inner().unregister_socket(core_handle)" in clx else 0)
+    emit_nat("commandLoopUnregistersInprocNames", 1 if re.search(r"std::mem::take\(&mut core_s_guard\.bound_inproc_names\).*?unregister_inproc\(&name_val\)", clx, re.S) else 0)
+    emit_nat("commandLoopStopsPatternAtExit", 1 if re.search(r"SocketCore loop exited.*?socket_logic_strong\.process_command\(Command::Stop\)\.await", src("core/src/socket/core/command_loop.rs"), re.S) else 0)
+    rq2 = strip_comments(src("core/src/socket/patterns/ready_pipe_queue.rs"))
+    emit_nat("queueCloseWakesParkedPop", 1 if re.search(r"pub fn close\(&self\) \{[^}]*?self\.closed\.store\(true, Ordering::Release\);\s*self\.close_notify\.notify_waiters\(\);", rq2, re.S)
+             and re.search(r"_ = &mut closed => return Err", rq2) else 0)
+    tc = strip_comments(src("core/src/transport/tcp.rs"))
+    emit_nat("connecterAbortIsFinal", 1 if re.search(r"Connect aborted: shutdown by system event", src("core/src/transport/tcp.rs")) and 's.contains("shutdown by")' in tc else 0)
+    emit_nat("connecterChecksParentRunning", 1 if re.search(r"if !self\.socket_logic\.core\(\)\.is_running\(\) \{\s*last_connect_attempt_error", tc) else 0)
+    act2 = strip_comments(src("core/src/sessionx/actor.rs"))
+    hs = act2[act2.index("'handshake: loop"):act2.index("self.read_half = Some(hs_read_half);")] if "'handshake: loop" in act2 else ""
+    emit_nat("handshakeWatchesEvents", 1 if "self.system_event_receiver.recv()" in hs else 0)
+    mm = re.search(r"tokio::time::sleep\(Duration::from_millis\((\d+)\)\) => \{\s*if !self\.socket_logic\.core\(\)\.is_running\(\)", hs)
+    emit_nat("handshakePollsParentEveryMs", int(mm.group(1)) if mm else 0)
+    # user operations look at is_running() first
+    n_guard = 0
+    for rel in ("push_socket.rs", "pull_socket.rs", "dealer_socket.rs", "router_socket.rs", "req_socket.rs", "rep_socket.rs", "pub_socket.rs", "sub_socket.rs"):
+        txt = strip_comments(src("core/src/socket/" + rel))
+        n_guard += len(re.findall(r"async fn (?:send|recv|send_multipart|recv_multipart)\([^)]*\)[^{]*\{\s*if !self\.core\.is_running\(\) \{\s*return Err", txt))
+    emit_nat("userOpsGuardedByIsRunning", n_guard)
+    # LINGER: what the linger check looks at, when sessions stop, whether they flush
+    sh = strip_comments(src("core/src/socket/core/shutdown.rs"))
+    bl = fn_body("core/src/socket/core/shutdown.rs", "is_linger_expired_or_queues_empty")
+    emit_nat("lingerCheckLooksAtPipesOnly", 1 if re.search(r"pipes_tx\s*\.values\(\)\s*\.all\(\|sender\| sender\.is_empty\(\)\)", bl) and "egress" not in bl else 0)
+    emit_nat("lingerDeadlineChecked", 1 if re.search(r"if let Some\(deadline\) = self\.linger_deadline \{\s*if Instant::now\(\) >= deadline", bl) else 0)
+    bs = fn_body("core/src/socket/core/shutdown.rs", "start_linger_if_needed")
+    emit_nat("lingerNoneHasNoDeadline", 1 if re.search(r"None => \{\s*self\.linger_deadline = None;", bs) else 0)
+    emit_nat("lingerZeroDeadlineNow", 1 if re.search(r"Some\(d\) if d\.is_zero\(\) => \{\s*self\.linger_deadline = Some\(Instant::now\(\)\);", bs) else 0)
+    emit_nat("lingerTimedDeadline", 1 if re.search(r"Some\(d\) => \{\s*self\.linger_deadline = Some\(Instant::now\(\) \+ d\);", bs) else 0)
+    cl2 = strip_comments(src("core/src/socket/core/command_loop.rs"))
+    mm = re.search(r"maintenance_interval: Interval = interval\(Duration::from_millis\((\d+)\)\)", cl2)
+    emit_nat("lingerCheckIntervalMs", int(mm.group(1)) if mm else 0)
+    bev = fn_body("core/src/sessionx/actor.rs", "process_system_event")
+    emit_nat("sessionStopsOnSocketClosing", 1 if re.search(r"SystemEvent::SocketClosing \{ socket_id \} => \{\s*if socket_id == self\.parent_socket_id \{\s*self\.transition_to_shutdown_stream\(None\)", bev) else 0)
+    emit_nat("sessionStopsOnContextTerminating", 1 if re.search(r"SystemEvent::ContextTerminating => \{[^}]*?self\.transition_to_shutdown_stream\(None\)", bev, re.S) else 0)
+    bg = fn_body("core/src/sessionx/actor.rs", "perform_graceful_shutdown")
+    emit_nat("sessionFlushesOnStop", 1 if ("egress_buffer" in bg or re.search(r"ShuttingDownStream[^;]*?EgressDriver::new", strip_comments(src("core/src/sessionx/actor.rs")), re.S)) else 0)
+    so = strip_comments(src("core/src/socket/options.rs"))
+    emit_nat("lingerDefaultIsZero", 1 if re.search(r"linger: Some\(Duration::ZERO\)", so) else 0)
     # HWM / timeouts: capacities of the two bounded queues of a connection, and what SNDTIMEO -1 means on a full one
     cp = strip_comments(src("core/src/socket/core/command_processor.rs"))
     emit_nat("pipeCapacityIsSndhwm", 1 if re.search(r"bounded_async::<FrameBatch>\(core_arc\.core_state\.read\(\)\.options\.sndhwm\.max\(1\)\)", cp) else 0)
